@@ -363,9 +363,14 @@ def body_shape(n, vec_cap, param_cap, template=None, wrong=False, roundtrip=True
 
 
 def replay_case(ctx, case):
-    a = ctx.get_native().ask({'op': 'json_shape', 'types': case['types']})
-    if a.get('panic') or a.get('crashed'): return True, None, a
-    return (not a.get('shape_ok', True)) or (not a.get('roundtrip_ok', True)), None, a
+    a = {}
+    for label, types in string_variants(case['types']):
+        a = ctx.get_native().ask({'op': 'json_shape', 'types': types})
+        bad = a.get('panic') or a.get('crashed') or (not a.get('shape_ok', True)) or (not a.get('roundtrip_ok', True))
+        if bad:
+            case['strings_realised_as'] = label; case['types'] = types
+            return True, None, a
+    return False, None, a
 
 
 def replay(ctx, path):
